@@ -30,7 +30,34 @@ type FaultPlan struct {
 	Err string `json:"err,omitempty"`
 }
 
-var errKinds = []string{"", "temporary", "timeout", "shortwrite", "eof", "closedpipe", "epipe", "deadline"}
+var errKinds = []string{"", "temporary", "timeout", "shortwrite", "eof", "closedpipe", "epipe", "deadline", "slice", "mapstruct"}
+
+// Error values of UNCOMPARABLE dynamic types (a slice type, as errors.Join-like aggregates
+// are; a struct value with a map field): comparing two of them with == panics, so code that
+// compares the error it got with another error value instead of using errors.Is breaks on
+// them. errors.Is attributes them through their Is method.
+type sliceErr []uint64
+
+func (e sliceErr) Error() string {
+	return fmt.Sprintf("simulated writer failure #%d (slice-typed error)", e[0])
+}
+func (e sliceErr) Is(t error) bool {
+	o, ok := t.(sliceErr)
+	return ok && len(o) == 1 && len(e) == 1 && o[0] == e[0]
+}
+
+type mapStructErr struct {
+	id   uint64
+	tags map[string]string
+}
+
+func (e mapStructErr) Error() string {
+	return fmt.Sprintf("simulated writer failure #%d (struct-with-map error)", e.id)
+}
+func (e mapStructErr) Is(t error) bool {
+	o, ok := t.(mapStructErr)
+	return ok && o.id == e.id
+}
 
 func (p *FaultPlan) String() string {
 	if p == nil {
@@ -118,7 +145,14 @@ func NewSink(plan *FaultPlan, id uint64) *Sink {
 	if plan != nil {
 		k = plan.Err
 	}
-	return &Sink{plan: plan, E: &simErr{id, k}, firstFail: -1}
+	var e error = &simErr{id, k}
+	switch k {
+	case "slice":
+		e = sliceErr{id}
+	case "mapstruct":
+		e = mapStructErr{id, map[string]string{"op": "write"}}
+	}
+	return &Sink{plan: plan, E: e, firstFail: -1}
 }
 
 func (s *Sink) fail(n int, kind string) (int, error) {
